@@ -50,7 +50,8 @@ def main():
         assert rc == 0, out
     sh(["rsync", "-a", "--delete", "--exclude", "harness/target", "--exclude", "work", "--exclude", "replays", "--exclude", ".git", "/verif/", verif + "/"])
     ct = os.path.join(verif, "harness", "Cargo.toml")
-    open(ct, "w").write(open(ct).read().replace('path = "/repo"', 'path = "%s"' % repo))
+    txt = open(ct).read().replace('path = "/repo"', 'path = "%s"' % repo)
+    open(ct, "w").write(txt)
     cat = json.load(open("/verif/mutants/catalog.json"))
     outp = os.path.join(scratch, "mutants.json")
     res = json.load(open(outp)) if os.path.exists(outp) else {}
